@@ -173,6 +173,19 @@ pub(crate) fn fits_unsigned(v: u16, bits: u32) -> bool {
 pub(crate) mod stubs {
     use fxhash::FxHashMap;
 
+    /// core's memchr (word-at-a-time search behind `str::find(char)`): 1.7 M symex steps for a 2-byte haystack.
+    /// Replacement: the obvious byte loop (same contract: index of the first occurrence).
+    pub fn memchr_simple(x: u8, text: &[u8]) -> Option<usize> {
+        let mut i = 0;
+        while i < text.len() {
+            if text[i] == x {
+                return Some(i);
+            }
+            i += 1;
+        }
+        None
+    }
+
     /// `alloc::fmt::format` replacement: messages are not the subject.
     pub fn fmt_format(_args: core::fmt::Arguments<'_>) -> String {
         String::new()
